@@ -98,4 +98,84 @@ def cnvPairwisePipeline (P : PrimeSet) (n resSize cnvOffset la lb : Nat) (maskA 
       (cnvPrepareRightLaneK q n (realNtt P n k) lb maskB bi) (cnvPrepareRightLaneK q n (realNtt P n k) lb maskB bj)
   (List.range resSize).map (fun l => idftLimb P n ((lane 0).getD l []) ((lane 1).getD l []) ((lane 2).getD l []) ((lane 3).getD l []))
 
+/-! ### `vec_znx_dft_apply(step, offset)` -/
+
+/-- one prime lane of `ntt120_vec_znx_dft_apply`: result limb `j < min(res_size, ⌈a_size/step⌉)` is the
+forward transform of input limb `offset + j·step` when that limb exists, `ntt_zero` otherwise -/
+def dftApplyLaneK (q n : Nat) (ntt : List Nat → List Nat) (step offset resSize : Nat) (a : Col) : List (List Nat) :=
+  let steps := (a.length + step - 1) / step
+  let minSteps := min resSize steps
+  (List.range resSize).map (fun j =>
+    if j < minSteps then
+      let limb := offset + j * step
+      if limb < a.length then ntt ((a.getD limb []).map (fun x => bFromU64K q (asU64 x))) else List.replicate n 0
+    else List.replicate n 0)
+
+/-! ### `vmp_prepare` / `vmp_apply_dft_to_dft`: layout of the prepared matrix, kernel calls, values -/
+
+/-- `u32` index at which `ntt120_vmp_prepare` stores the 16-word x2-block `blk` of entry `(row, col)` of an
+`nrows × ncols` matrix (`dst_base + blk_j·offset`): paired columns interleaved two by two, a last odd
+column on its own -/
+def vmpSlotAddr (nrows ncols row col blk : Nat) : Nat :=
+  (if col = ncols - 1 ∧ ncols % 2 ≠ 0 then col * nrows * 16 + row * 16
+   else (col / 2) * (nrows * 32) + row * 32 + (col % 2) * 16) + blk * (nrows * ncols * 16)
+
+/-- one `save_blk_*` of the apply core: result column `colRes` receives half `half` of the output of a
+kernel call (`ntt_mul_bbc_2cols_x2` when `twoCols`, `ntt_mul_bbc_1col_x2` otherwise) made with
+`col_offset = colPmat·nrows·16` -/
+structure VmpWrite where
+  colRes : Nat
+  twoCols : Bool
+  colPmat : Nat
+  half : Nat
+deriving DecidableEq, Repr
+
+/-- the paired-column loop `for (col_res, col_pmat) in (r0..).step_by(2).zip((c0..hi).step_by(2))`, `cnt` iterations -/
+def vmpPairWrites : Nat → Nat → Nat → List VmpWrite
+  | 0, _, _ => []
+  | cnt + 1, colPmat, colRes =>
+    ⟨colRes, true, colPmat, 0⟩ :: ⟨colRes + 1, true, colPmat, 1⟩ :: vmpPairWrites cnt (colPmat + 2) (colRes + 2)
+
+/-- number of items of `(lo..hi).step_by(2)` -/
+def stepBy2Count (lo hi : Nat) : Nat := (hi - lo + 1) / 2
+
+/-- all `save_blk_*` calls of one block iteration of `vmp_apply_dft_to_dft_core`, in program order, for
+`limb_offset < col_max` -/
+def vmpWrites (limbOffset colMax ncols : Nat) : List VmpWrite :=
+  (if limbOffset % 2 = 0 then vmpPairWrites (stepBy2Count limbOffset (colMax - 1)) limbOffset 0
+   else ⟨0, true, limbOffset - 1, 1⟩ :: vmpPairWrites (stepBy2Count (limbOffset + 1) (colMax - 1)) (limbOffset + 1) 1)
+  ++ (if colMax % 2 ≠ 0 ∧ colMax - 1 ≥ limbOffset then [⟨colMax - 1 - limbOffset, decide (ncols ≠ colMax), colMax - 1, 0⟩] else [])
+
+/-- `u32` index of the 16-word block the kernel reads for row `i` on behalf of write `w`
+(`mat_blk_u32[col_offset..]`, row stride 32 for the 2-column kernel, 16 for the 1-column kernel) -/
+def vmpReadAddr (nrows ncols : Nat) (w : VmpWrite) (blk i : Nat) : Nat :=
+  blk * (nrows * ncols * 16) + w.colPmat * (nrows * 16) + (if w.twoCols then 32 * i + 16 * w.half else 16 * i)
+
+/-- the q120c lane `vmp_prepare` stores for one matrix entry: `b_from_znx64`, forward transform, `c_from_b` -/
+def vmpPrepareLaneK (q : Nat) (ntt : List Nat → List Nat) (e : Poly) : List (Nat × Nat) :=
+  (ntt (e.map (fun x => bFromU64K q (asU64 x)))).map (cPairK q)
+
+/-- one prime lane of `vmp_apply_dft_to_dft_core::<true>`: `A` = the flat input limbs (q120b lanes), `M i c` =
+the prepared lane of matrix entry `(i, c)`; `off = limb_offset·cols_out`, result of `resLen` flat limbs.
+Every active output column `r` is the `bbc` product over the first `row_max` rows against matrix column `r + off`
+(which kernel call produces it and where it reads is `vmpWrites` / `vmpReadAddr`) -/
+def vmpApplyLaneK (q h n : Nat) (A : List (List Nat)) (M : Nat → Nat → List (Nat × Nat)) (nrows ncols off resLen : Nat) :
+    List (List Nat) :=
+  let rowMax := min nrows A.length
+  let colMax := min ncols (resLen + off)
+  (List.range resLen).map (fun r =>
+    if off < colMax ∧ r < colMax - off then
+      bbcSlotsK q h n ((List.range rowMax).map (fun i => ((A.getD i []).map u32Pair, M i (r + off))))
+    else List.replicate n 0)
+
+/-- `vec_znx_dft_apply` on the input limbs, `vmp_prepare` on the matrix, `vmp_apply_dft_to_dft(limb_offset)`,
+`vec_znx_idft_apply`: the `resLen` flat coefficient-domain limbs of the result -/
+def vmpFullPipeline (P : PrimeSet) (n : Nat) (aFlat : List Poly) (m : Hal.PMat) (limbOffset resLen : Nat) : List Poly :=
+  let lane := fun k =>
+    let q := P.qs.getD k 1
+    vmpApplyLaneK q (bbcH P) n (aFlat.map (fun a => realNtt P n k (a.map (fun x => bFromU64K q (asU64 x)))))
+      (fun i c => vmpPrepareLaneK q (realNtt P n k) (m.entry i c)) (m.colsIn * m.rows) (m.colsOut * m.size)
+      (limbOffset * m.colsOut) resLen
+  (List.range resLen).map (fun r => idftLimb P n ((lane 0).getD r []) ((lane 1).getD r []) ((lane 2).getD r []) ((lane 3).getD r []))
+
 end Ntt120
